@@ -10,6 +10,8 @@ Import-free (linked into the driver).
 Protocol (`c10 kind=alloc mech=<m> a=<nat> b=<nat> [mask=<0/1 list>]`) -> `ok= n= term=1 sum= covers= size=`
   `ok` = every write index inside `[0,size)`, `n` = number of writes, `sum` = Σ indices, `covers` = every cell written.
   mech = fill | pixel | rows | pairs | records | bboxinit | complexhalves | compress | gm | hitmissbuf | window
+  mech=dtscratch n=<nat> cmp=<0/1 n×n: s > z[k] at (q,k)> lt2=<0/1 n×n: z[k+1] < q> -> `ok= n= term= sum= k=`: the reads of the scratch
+         arrays `v`, `z` of `dist_transform`, each against the number of cells stored so far (`ok` = every read cell was stored)
 -/
 import Mahotas.Model.Basic
 namespace Mahotas.C10Alloc
@@ -99,6 +101,59 @@ def readsDefined (ws rs : List Int) : Bool := rs.all fun i => ws.contains i
     `imagebuf`) followed by `for (j = 0; j != N; ++j) { if (*pb && *pa) …; ++pa; ++pb; }`: (writes, reads) of the buffer -/
 def hitmissBufRound (n : Nat) : List Int × List Int := (pixelWrites n, pixelWrites n)
 
+
+/-! ## `_distance.cpp: dist_transform` — the scratch arrays `v` (`new int[n]`) and `z` (`new double[n+1]`) of `py_dt`
+
+The Felzenszwalb–Huttenlocher pass stores `v[0]`, `z[0]`, `z[1]` first; each round of the first loop pops (`--k` while
+`s <= z[k]`, reading `v[k]`, `z[k]`), then `++k; v[k] = q; z[k] = s; z[k+1] = inf`. `W` = "the cells `v[0 … W)` and
+`z[0 … W]` have been stored" (cells above the current `k` keep earlier values: stored, merely stale). The float tests are
+oracles as in `Model/C10.lean`: `cmp q k` = `s > z[k]` (break), `lt2 q k` = `z[k+1] < q`. -/
+
+/-- a read of a scratch cell: its index and the number of leading cells stored at that moment -/
+structure DRead where
+  idx : Nat
+  stored : Nat
+deriving Repr, DecidableEq
+
+def DRead.ok (r : DRead) : Bool := decide (r.idx < r.stored)
+
+/-- the do-while of one round at `k` with watermark `W`: reads of `v[k]` (against `W`) and `z[k]` (against `W + 1`) until
+    `cmp q k`; the `k` at `break` (`none`: `k` would become `-1`) -/
+def dtPopD (cmp : Nat → Nat → Bool) (q W : Nat) : Nat → List DRead × Option Nat
+  | 0 => ([⟨0, W⟩, ⟨0, W + 1⟩], if cmp q 0 then some 0 else none)
+  | k + 1 =>
+    if cmp q (k + 1) then ([⟨k + 1, W⟩, ⟨k + 1, W + 1⟩], some (k + 1))
+    else let r := dtPopD cmp q W k; (⟨k + 1, W⟩ :: ⟨k + 1, W + 1⟩ :: r.1, r.2)
+
+/-- `cnt` rounds of `for (q = 1; q != n; ++q)` from state `(q, k, W)`: after the do-while `++k; v[k] = q; z[k] = s; z[k+1] = inf`
+    raises the watermark to `max W (k + 1)`. Returns all reads and the final `(k, W)`. -/
+def dtFirstD (cmp : Nat → Nat → Bool) : Nat → Nat → Nat → Nat → List DRead × Option (Nat × Nat)
+  | 0, _, k, W => ([], some (k, W))
+  | c + 1, q, k, W =>
+    match dtPopD cmp q W k with
+    | (a, none) => (a, none)
+    | (a, some kb) =>
+      let r := dtFirstD cmp c (q + 1) (kb + 1) (max W (kb + 2))
+      (a ++ r.1, r.2)
+
+/-- second loop, one `q`: `while (z[k+1] < q) ++k;` then `v[k]` — reads `z[k+1]` (against `W + 1`), finally `v[k]` (against `W`) -/
+def dtAdvanceD (lt2 : Nat → Nat → Bool) (q W : Nat) : Nat → Nat → List DRead × Nat
+  | 0, k => ([], k)
+  | f + 1, k =>
+    if lt2 q k then let r := dtAdvanceD lt2 q W f (k + 1); (⟨k + 1, W + 1⟩ :: r.1, r.2)
+    else ([⟨k + 1, W + 1⟩, ⟨k, W⟩], k)
+
+def dtSecondD (lt2 : Nat → Nat → Bool) (n W : Nat) : Nat → Nat → Nat → List DRead
+  | 0, _, _ => []
+  | c + 1, q, k => let r := dtAdvanceD lt2 q W (n + 2) k; r.1 ++ dtSecondD lt2 n W c (q + 1) r.2
+
+/-- all reads of `v` and `z` in one call of `dist_transform` on a line of `n ≥ 1` cells (initial stores `v[0]`, `z[0]`, `z[1]`:
+    `k = 0`, `W = 1`), and the final `k` of the first loop -/
+def dtScratchReads (cmp lt2 : Nat → Nat → Bool) (n : Nat) : List DRead × Option Nat :=
+  match dtFirstD cmp (n - 1) 1 0 1 with
+  | (a, none) => (a, none)
+  | (a, some (k, W)) => (a ++ dtSecondD lt2 n W n 0 0, some k)
+
 /-! ## driver -/
 
 def sI (l : List Int) : Int := l.foldl (· + ·) 0
@@ -128,6 +183,11 @@ def handleAlloc (a : Args) : Option String :=
       let r := hitmissBufRound x
       some (report x r.1 ++ s!" reads={if readsDefined r.1 r.2 then 1 else 0}")
     | "window" => some (report (x * y) (windowWrites x y z))
+    | "dtscratch" =>
+      let n := a.nat "n"
+      let cm := a.ints "cmp"; let l2 := a.ints "lt2"
+      let r := dtScratchReads (fun q k => cm.getD (q * n + k) 0 != 0) (fun q k => l2.getD (q * n + k) 0 != 0) n
+      some s!"ok={if r.1.all DRead.ok && r.2.isSome then 1 else 0} n={r.1.length} term={if r.2.isSome then 1 else 0} sum={r.1.foldl (fun acc d => acc + d.idx) 0} k={r.2.getD 0}"
     | m => some s!"error=unknown-mech-{m}"
   | _ => none
 
